@@ -1,4 +1,5 @@
 import UberjobModel.Lemmas.CacheHistory
+import UberjobModel.Lemmas.ExecFinal
 /-!
 # C08 — a run cut short at any point leaves stores that the next run repairs correctly
 
@@ -65,6 +66,30 @@ theorem C08_no_redo {P : LPlan} (hP : P.WF) {w0 : World} {F : Option Int} {ops :
   run_prefix_fresh hP (fun j hu => applyOps_untouched hnd hu w0)
     (fun j t hm => applyOps_touched hnd hnodup hm w0) hOnlyStale
     (fun j t hm => ⟨opsOk_below hnd hok hm, fun f hf => hFresh j t f hm hf⟩) hOrder j hsettled
+
+/-! ### End to end (stale check + physical plan + engine + stores; see Props/C03.lean for the setting) -/
+
+open Uberjob.Phys Uberjob.Exec in
+/-- **A run cut short at ANY point of ANY schedule** (any reachable state of the engine model on the physical plan: after
+    a call or a store operation raised — failed nodes have no effect —, after a KeyboardInterrupt, or simply stopped
+    there by the death of the process between two store operations): the stores satisfy `Good` — every stored value that
+    the next run would treat as up to date equals its from-scratch value; every stored value completely written so far
+    IS its from-scratch value; every other store is untouched; no source was changed. -/
+theorem C08_end_to_end_cut {P : Input} {w0 : World} {F : Option Int} {c0 : Int} (S : Setup P w0 F c0)
+    {cfg : Engine.Cfg} {s : Engine.St} (h : Engine.Reach (engineGraph P) cfg s) :
+    let xc := execOrder P (initX w0 c0) s.okd
+    Good P.toLPlan xc.w ∧
+    (∀ i, code (.write i) ∈ s.okd → ∃ t, xc.w.st i = some (FS P.toLPlan w0 i, t) ∧ c0 ≤ t) ∧
+    (∀ i, code (.write i) ∉ s.okd → xc.w.st i = w0.st i) ∧
+    (∀ k, FS P.toLPlan xc.w k = FS P.toLPlan w0 k) := by
+  intro xc
+  have I : XInv P w0 c0 s.okd xc := xinv_reach S h
+  refine ⟨I.good, I.written, I.untouched, ?_⟩
+  apply FS_congr (toLPlan_wf S.wf)
+  intro k hk
+  have hk' : P.regOf k = some true := hk
+  have := I.untouched k (write_not_okd_of_not S h I (by rw [hk']; simp))
+  simp [World.content, this]
 
 /-! Non-vacuity: source 0 → unstored 1 → stored 2; a source update, a completed write, then both. -/
 def chain : LPlan := ⟨3, fun i => if i = 0 then [] else [i - 1], fun i => if i = 0 then [] else [i - 1],
